@@ -387,3 +387,32 @@ def block_compare(case, tr, resps):
                 return f"block {i}: impl={g!r} model={w!r}"
         return f"block count impl={len(got)} model={len(want)}: impl={got!r} model={want!r}"
     return None
+
+
+# --------------------------------------------------------------------------- real-world corpus
+
+def file_corpus_cases(limit, rng=None, max_len=80000):
+    """stdlib / site-packages modules as rewriter inputs (reformat and tidy with an empty database)"""
+    import glob
+    import os
+    import sysconfig
+    std = sysconfig.get_paths()["stdlib"]
+    files = sorted(glob.glob(os.path.join(std, "*.py")) + glob.glob(os.path.join(std, "*", "*.py")))
+    files = [f for f in files if "/test/" not in f and "site-packages" not in f and "lib2to3" not in f]
+    sp = sysconfig.get_paths()["purelib"]
+    files += sorted(glob.glob(os.path.join(sp, "*", "*.py")))[:800]
+    if rng is not None:
+        files = rng.sample(files, min(len(files), limit))
+    out = []
+    for f in files[:limit]:
+        try:
+            text = open(f, encoding="utf-8").read()
+            if len(text) > max_len or not text.strip():
+                continue
+            compile(text, f, "exec", dont_inherit=True)
+        except Exception:
+            continue
+        for tool in ("reformat", "tidy"):
+            out.append(dict(text=text, tool=tool, params={}, known=[], mandatory=[], file=f,
+                            flags=dict(add_missing=False, remove_unused=(tool == "tidy"), add_mandatory=False)))
+    return out
